@@ -17,7 +17,7 @@ type ForInfo struct {
 	EquBetweenBlocks, LabelledBodyStartsWithBareFor, ChainedEqu     bool
 	EquInsideBlock, LabelledBodyStartsWithSilentFor, EmptyBody      bool
 	LabelInsideBody, EquTwoLevelsDeep, EquByCounter                 bool
-	LabelsInDeadBlock                                               bool
+	LabelsInDeadBlock, EquWeb                                       bool
 }
 
 type forGen struct {
@@ -31,6 +31,7 @@ type forGen struct {
 	nBlock     int
 	nBodyLab   int
 	nDead      int
+	equHeavy   bool // an EQU web: more definitions, values naming several earlier ones, most counts use one
 	nestedEqus []rc.Item // EQU definitions still to be placed inside a body that is written out once
 	topLabs    []string  // instruction labels outside blocks
 	blkLabs    []string  // block labels (all, known up front)
@@ -99,7 +100,11 @@ func (g *forGen) instr(counters []string, labels []string) rc.Item {
 
 func (g *forGen) countExpr(v int64) []rc.Tok {
 	t := g.t
-	if len(g.equs) > 0 && rapid.IntRange(0, 2).Draw(t, "cequ") == 0 {
+	cequ := rapid.IntRange(0, 2).Draw(t, "cequ")
+	if g.equHeavy && cequ == 1 {
+		cequ = 0
+	}
+	if len(g.equs) > 0 && cequ == 0 {
 		e := rc.ID(rapid.SampledFrom(g.equs).Draw(t, "ce"))
 		var base []rc.Tok
 		// templates in which operator precedence reaches into a textually substituted EQU body
@@ -289,6 +294,11 @@ func ForProgram(t *rapid.T, cfg AsmConfig) (rc.Program, ForInfo) {
 	g := &forGen{t: t, cfg: cfg, equVal: map[string]int64{}}
 	var items []rc.Item
 	ne := rapid.IntRange(0, 3).Draw(t, "nequ")
+	if Rare(t, "equheavy", 3) {
+		g.equHeavy = true
+		ne = rapid.IntRange(3, 5).Draw(t, "nequheavy")
+		g.info.EquWeb = true
+	}
 	var equItems []rc.Item
 	defer func() { g.equItems = nil }()
 	for k := 0; k < ne; k++ {
@@ -296,7 +306,21 @@ func ForProgram(t *rapid.T, cfg AsmConfig) (rc.Program, ForInfo) {
 		a := int64(rapid.IntRange(0, 6).Draw(t, "ev"))
 		var body []rc.Tok
 		val := a
-		switch rapid.IntRange(0, 5).Draw(t, "ek") {
+		ek := rapid.IntRange(0, 5).Draw(t, "ek")
+		if g.equHeavy && k >= 2 && ek <= 3 {
+			ek = 6
+		}
+		switch ek {
+		case 6:
+			// the value names several earlier definitions, in any order
+			g.info.ChainedEqu = true
+			n := rapid.IntRange(2, 3).Draw(t, "webn")
+			for j := 0; j < n; j++ {
+				if j > 0 {
+					body = append(body, rc.OP(rapid.SampledFrom([]string{"+", "+", "*"}).Draw(t, "webop")))
+				}
+				body = append(body, rc.ID(fmt.Sprintf("C%d", rapid.IntRange(0, k-1).Draw(t, "webref"))))
+			}
 		case 0:
 			body = rc.Toks(rc.N(a))
 		case 1:
